@@ -27,7 +27,7 @@ RULE = ('systems are generated round-robin over 10 configuration classes (sparse
         'cell widths, exact integer lattices with pairs exactly at the cutoff, N=1..3) x 9 cell kinds (7 families, '
         'strongly tilted, rotated; exact class: integer cells with integer tilts) x 3 origin classes x 3 length scales '
         'x 8 periodicity settings x 5 storage-size pairs; every system is built with its own storage pair and with '
-        '(1,1)/(20,10) (all five when N<=150) through NeighborList(...), System.neighborlist(...) or nlist(...), and is '
+        '(1,1)/(20,10) (all five plus one random pair in [1,30]x[1,15] when N<=150) through NeighborList(...), System.neighborlist(...) or nlist(...), and is '
         'written and read back.  A case is non-trivial when the oracle finds at least one neighbour pair (or an atom '
         'whose own image lies inside the cutoff); distinct = distinct fingerprint of (positions, cell, origin, pbc, cutoff).')
 ASSUMPTIONS = ['all atoms lie inside the cell (relative coordinates in [0,1], faces included): the stated precondition',
@@ -265,7 +265,7 @@ def run(ctx):
             if i < 40:
                 rec.sample(dict(config=config, kind=meta['kind'], pbc=_pbc_str(case['pbc']), natoms=n, cutoff=cutoff,
                                 cutoff_over_wmin=meta['cutoff_over_wmin'], sizes=case['sizes'], neighbour_pairs=npairs,
-                                vects=info['vects'], origin=info['origin'], pos_head=info['pos'][:4]))
+                                vects=info['vects'], origin=info['origin'], pos_head=info['pos'][:4]), group=config)
             # ---- what the input actually contains (coverage of the hostile classes)
             off = ~np.eye(n, dtype=bool)
             cross = adj & (tab['direct'] >= cutoff)
@@ -299,6 +299,7 @@ def run(ctx):
             others = [s for s in S.SIZES if s != case['sizes']]
             if n <= FIVE_SIZES_MAX_N:
                 size_list += others
+                size_list.append((int(rng.integers(1, 31)), int(rng.integers(1, 16))))     # any sizes >= 1
             else:
                 size_list += [s for s in ((1, 1), (20, 10)) if s != case['sizes']]
             first_rows, first_nl, first_arr = None, None, None
